@@ -271,7 +271,12 @@ class Track:
             if len(self.note_offs) == 0:
                 self.is_finished = True
 
-        self.current_time += self.tick_duration
+        #--------------------------------------------------------------------------------
+        # Keep the track's time on the tick grid, so that floating-point error does not
+        # accumulate from one tick to the next.
+        #--------------------------------------------------------------------------------
+        ticks_per_beat = self.timeline.ticks_per_beat
+        self.current_time = round((self.current_time + self.tick_duration) * ticks_per_beat) / ticks_per_beat
 
     def reset_to_beat(self):
         """
